@@ -333,6 +333,8 @@ def _partition(spec):
     extra = []
     if spec["k"] == "category":
         extra = list(spec["cats"])
+    if spec.get("fmt"):
+        extra = list(P.FMT_CELLS)
     good, bad, grey = [], [], []
     for c in cells + extra:
         cl, _ = P.own(spec, V.decode(c))
@@ -433,6 +435,12 @@ def _run_polars(case, T, df):
             out = T.try_coerce(PolarsData(df.lazy(), "a"))
         elif route == "frame":
             out = T.try_coerce(df.lazy())
+        elif route == "schema" and case.get("depth"):
+            # coercion failures name their values whenever the data is looked at (SCHEMA_AND_DATA and DATA_ONLY)
+            from pandera.config import ValidationDepth, config_context
+
+            with config_context(validation_depth=ValidationDepth[case["depth"]]):
+                out = pap.DataFrameSchema({"a": pap.Column(T, coerce=True, nullable=True)}).validate(df)
         elif route == "schema":
             out = pap.DataFrameSchema({"a": pap.Column(T, coerce=True, nullable=True)}).validate(df)
         else:
@@ -524,6 +532,8 @@ def _eval_polars(case):
         return ev
     elems = df["a"].to_list()
     ev.labels += [f"pl:dtype={fam}", f"pl:src={phys}", f"pl:route={route}", f"pl:mode={case.get('mode', 'free')}"]
+    if case.get("depth"):
+        ev.labels.append("pl:depth=" + case["depth"])
 
     cls = []
     for i, v in enumerate(elems):
@@ -680,15 +690,18 @@ def strat_polars():
             ps = [st.sampled_from(grey or [None])]
         n = draw(st.sampled_from(SIZES))
         cells = draw(st.lists(st.one_of(*ps), min_size=n, max_size=n))
-        route = draw(st.sampled_from(["key", "key", "frame", "schema"]))
-        return {"dtype": spec, "phys": phys, "cells": cells, "route": route, "mode": mode}
+        route = draw(st.sampled_from(["key", "key", "frame", "schema", "schema"]))
+        out = {"dtype": spec, "phys": phys, "cells": cells, "route": route, "mode": mode}
+        if route == "schema" and draw(st.integers(0, 2)) == 0:
+            out["depth"] = draw(st.sampled_from(["DATA_ONLY", "SCHEMA_AND_DATA"]))
+        return out
 
     return case()
 
 
 FAMILIES.append(
     Family("polars", eval_polars, strategy=strat_polars, n_quick=900, n_thorough=3500, shards_quick=6, shards_thorough=16,
-           required_labels=["pl:outcome=ok", "pl:outcome=parser-error", "pl:route=schema",
+           required_labels=["pl:outcome=ok", "pl:outcome=parser-error", "pl:route=schema", "pl:depth=DATA_ONLY",
                             "pl:mix=convertible+null+unconvertible"]))
 
 
